@@ -183,6 +183,7 @@ type VC struct {
 	rootExec *Exec
 	defs     map[string]*Term // named definitions: symbol -> defining term
 	defByExpr map[string]*Term // hash-consing of definitions
+	splitDepth int
 }
 
 func NewVC(fn string, specs *SpecLib) *VC {
@@ -238,6 +239,62 @@ func (vc *VC) Assume(guard, fact *Term) {
 	if vc.frozen > 0 {
 		return
 	}
+	// an assumed existential is skolemised here (named witnesses esk!N), so that the witness is a constant the
+	// goal-directed instantiation can use
+	{
+		var pre []*Term
+		f := fact
+		for f.Op == "=>" && len(f.Args) == 2 {
+			pre = append(pre, f.Args[0])
+			f = f.Args[1]
+		}
+		// also look one level into a conjunction-free body: (exists ...) directly
+		if f.Op == "exists" && len(f.QVars) > 0 {
+			body := f.Args[0].String()
+			for _, v := range f.QVars {
+				sk := vc.Fresh("esk", v[1])
+				body = replaceSymbol(body, v[0], sk.Name)
+			}
+			ot := &Term{Op: "opaque", Sort: SBool, str: body}
+			g := guard
+			for _, p := range pre {
+				g = And(g, p)
+			}
+			vc.items = append(vc.items, Item{Assert: Implies(g, ot)})
+			return
+		}
+	}
+	// quantified facts: iff is split into two implications and conjunctions under implications are flattened,
+	// so that universally quantified conjuncts end up as top-level universals (instantiable goal-directedly)
+	if hasQuant(fact) && vc.splitDepth < 3 {
+		f := fact
+		var pre []*Term
+		for f.Op == "=>" && len(f.Args) == 2 {
+			pre = append(pre, f.Args[0])
+			f = f.Args[1]
+		}
+		wrap := func(t *Term) *Term {
+			for i := len(pre) - 1; i >= 0; i-- {
+				t = Implies(pre[i], t)
+			}
+			return t
+		}
+		if f.Op == "=" && len(f.Args) == 2 && f.Args[0].Sort == SBool {
+			vc.splitDepth++
+			vc.Assume(guard, wrap(Implies(f.Args[0], f.Args[1])))
+			vc.Assume(guard, wrap(Implies(f.Args[1], f.Args[0])))
+			vc.splitDepth--
+			return
+		}
+		if parts := splitGoal(fact); len(parts) > 1 {
+			vc.splitDepth++
+			for _, p := range parts {
+				vc.Assume(guard, p)
+			}
+			vc.splitDepth--
+			return
+		}
+	}
 	f := Implies(guard, fact)
 	if f.IsTrue() {
 		return
@@ -273,6 +330,69 @@ func (vc *VC) Oblige(kind, name, desc, pos string, guard, goal *Term, inputs []*
 	return o
 }
 
+// hasQuant: the term contains a quantifier node.
+func hasQuant(t *Term) bool {
+	if t == nil {
+		return false
+	}
+	if t.Op == "forall" || t.Op == "exists" {
+		return true
+	}
+	for _, a := range t.Args {
+		if hasQuant(a) {
+			return true
+		}
+	}
+	return false
+}
+
+// splitGoal flattens conjunctions under implications when they contain quantified conjuncts, so that each
+// quantified conjunct becomes its own obligation (and can be skolemised goal-directedly).
+func splitGoal(g *Term) []*Term {
+	if !hasQuant(g) {
+		return []*Term{g}
+	}
+	switch g.Op {
+	case "=>":
+		if len(g.Args) == 2 {
+			var out []*Term
+			for _, s := range splitGoal(g.Args[1]) {
+				out = append(out, Implies(g.Args[0], s))
+			}
+			return out
+		}
+	case "and":
+		var out []*Term
+		var plain []*Term
+		for _, a := range g.Args {
+			if hasQuant(a) {
+				out = append(out, splitGoal(a)...)
+			} else {
+				plain = append(plain, a)
+			}
+		}
+		if len(plain) > 0 {
+			out = append([]*Term{And(plain...)}, out...)
+		}
+		return out
+	}
+	return []*Term{g}
+}
+
+// ObligeAll is Oblige with splitting of quantified conjunctions (names name, name.c2, name.c3 ...).
+func (vc *VC) ObligeAll(kind, name, desc, pos string, guard, goal *Term, inputs []*Term) []*Obligation {
+	parts := splitGoal(goal)
+	var out []*Obligation
+	for i, p := range parts {
+		n := name
+		if i > 0 {
+			n = fmt.Sprintf("%s.c%d", name, i+1)
+		}
+		out = append(out, vc.Oblige(kind, n, desc, pos, guard, p, inputs))
+	}
+	return out
+}
+
 // ---------- emission ----------
 
 const preambleFixed = `(set-option :produce-models true)
@@ -291,6 +411,7 @@ const preambleFixed = `(set-option :produce-models true)
 (declare-fun strsub (Str (_ BitVec 64) (_ BitVec 64)) Str)
 (declare-fun strof ((Array (_ BitVec 64) (_ BitVec 8)) (_ BitVec 64) (_ BitVec 64)) Str)
 (declare-fun strlt (Str Str) Bool)
+(declare-fun timeunix ((_ BitVec 128)) (_ BitVec 64))
 (assert (= (strlen strempty) #x0000000000000000))
 (define-fun str_ok ((s Str)) Bool (and (bvsle #x0000000000000000 (strlen s)) (bvsle (strlen s) ` + maxLenLit + `)))
 (define-fun ref_ok ((r Int) (ac Int)) Bool (and (<= 0 r) (< r ac)))
@@ -389,7 +510,145 @@ func (o *Obligation) SMT(withModel bool) string {
 		body.WriteString("(assert " + o.Extra.String() + ")\n")
 	}
 	body.WriteString("(assert " + o.Guard.String() + ")\n")
-	body.WriteString("(assert (not " + o.Goal.String() + "))\n")
+	// goal-directed skolemisation: for a goal  A => forall x. G(x)  assert A, not G(sk), and the instances at sk
+	// of the universally quantified assumptions over the same sort (triggers with arithmetic inside, such as
+	// s[off+i], do not fire by E-matching)
+	goal := o.Goal
+	var hyps []*Term
+	for goal.Op == "=>" && len(goal.Args) == 2 {
+		hyps = append(hyps, goal.Args[0])
+		goal = goal.Args[1]
+	}
+	if goal.Op == "forall" && len(goal.QVars) > 0 && !o.ExpectSat {
+		for _, h := range hyps {
+			body.WriteString("(assert " + h.String() + ")\n")
+		}
+		gb := goal.Args[0].String()
+		type skv struct{ name, sort string }
+		var sks []skv
+		for i, v := range goal.QVars {
+			sk := fmt.Sprintf("gsk!%d", i)
+			body.WriteString("(declare-const " + sk + " " + v[1] + ")\n")
+			gb = replaceSymbol(gb, v[0], sk)
+			sks = append(sks, skv{sk, v[1]})
+		}
+		n := 0
+		for i, it := range items {
+			if !keep[i] || it.Assert == nil || n > 200 {
+				continue
+			}
+			f := it.Assert
+			var pre []*Term
+			for f.Op == "=>" && len(f.Args) == 2 {
+				pre = append(pre, f.Args[0])
+				f = f.Args[1]
+			}
+			if f.Op != "forall" || len(f.QVars) != 1 {
+				continue
+			}
+			for _, sk := range sks {
+				if sk.sort != f.QVars[0][1] {
+					continue
+				}
+				inst := replaceSymbol(f.Args[0].String(), f.QVars[0][0], sk.name)
+				if len(pre) > 0 {
+					var ps []string
+					for _, p := range pre {
+						ps = append(ps, p.String())
+					}
+					inst = "(=> (and " + strings.Join(ps, " ") + ") " + inst + ")"
+				}
+				body.WriteString("(assert " + inst + ")\n")
+				n++
+			}
+		}
+		body.WriteString("(assert (not " + gb + "))\n")
+	} else if goal.Op == "exists" && len(goal.QVars) == 2 && !o.ExpectSat {
+		// two bound variables: instances over pairs of witness constants of the matching sorts
+		body.WriteString("(assert (not " + o.Goal.String() + "))\n")
+		for _, h := range hyps {
+			body.WriteString("(assert " + h.String() + ")\n")
+		}
+		var c0, c1 []string
+		for i, it := range items {
+			if !keep[i] || it.Assert != nil || it.Raw != "" || !strings.HasPrefix(it.Name, "esk!") {
+				continue
+			}
+			if it.Sort == goal.QVars[0][1] {
+				c0 = append(c0, it.Name)
+			}
+			if it.Sort == goal.QVars[1][1] {
+				c1 = append(c1, it.Name)
+			}
+		}
+		n := 0
+		for _, a := range c0 {
+			for _, b := range c1 {
+				if n > 36 {
+					break
+				}
+				inst := replaceSymbol(replaceSymbol(goal.Args[0].String(), goal.QVars[0][0], a), goal.QVars[1][0], b)
+				body.WriteString("(assert (not " + inst + "))\n")
+				n++
+			}
+		}
+	} else if goal.Op == "exists" && len(goal.QVars) == 1 && !o.ExpectSat {
+		// the negated goal is a universal fact; add its instances at the index-like constants of the function
+		// (consequences of the negated goal, so sound) to make up for triggers with arithmetic inside
+		body.WriteString("(assert (not " + o.Goal.String() + "))\n")
+		for _, h := range hyps {
+			body.WriteString("(assert " + h.String() + ")\n")
+		}
+		v := goal.QVars[0]
+		n := 0
+		for i, it := range items {
+			if !keep[i] || it.Assert != nil || it.Raw != "" || it.Sort != v[1] || n > 24 {
+				continue
+			}
+			if strings.HasPrefix(it.Name, "i!") || strings.HasPrefix(it.Name, "rangeindex!") || strings.HasPrefix(it.Name, "j!") || strings.HasPrefix(it.Name, "idx!") || strings.HasPrefix(it.Name, "esk!") {
+				body.WriteString("(assert (not " + replaceSymbol(goal.Args[0].String(), v[0], it.Name) + "))\n")
+				n++
+			}
+		}
+	} else {
+		body.WriteString("(assert (not " + o.Goal.String() + "))\n")
+		// existentials in positive position below implications / disjunctions: the negated goal implies the
+		// negation of each of their instances; add those at the witness-like constants
+		if !o.ExpectSat {
+			var exs []*Term
+			var walk func(t *Term)
+			walk = func(t *Term) {
+				switch t.Op {
+				case "=>":
+					if len(t.Args) == 2 {
+						walk(t.Args[1])
+					}
+				case "or":
+					for _, a := range t.Args {
+						walk(a)
+					}
+				case "exists":
+					if len(t.QVars) == 1 {
+						exs = append(exs, t)
+					}
+				}
+			}
+			walk(o.Goal)
+			for _, ex := range exs {
+				v := ex.QVars[0]
+				n := 0
+				for i, it := range items {
+					if !keep[i] || it.Assert != nil || it.Raw != "" || it.Sort != v[1] || n > 24 {
+						continue
+					}
+					if strings.HasPrefix(it.Name, "i!") || strings.HasPrefix(it.Name, "rangeindex!") || strings.HasPrefix(it.Name, "j!") || strings.HasPrefix(it.Name, "idx!") || strings.HasPrefix(it.Name, "esk!") {
+						body.WriteString("(assert (not " + replaceSymbol(ex.Args[0].String(), v[0], it.Name) + "))\n")
+						n++
+					}
+				}
+			}
+		}
+	}
 	text := body.String()
 	// sorts and spec symbols used
 	toks := tokenize(text)
@@ -844,4 +1103,28 @@ func relaxQuantifiers(text string) string {
 		rb.WriteString(line + "\n")
 	}
 	return rb.String()
+}
+
+// replaceSymbol replaces whole-token occurrences of a symbol in SMT text.
+func replaceSymbol(text, from, to string) string {
+	var sb strings.Builder
+	i := 0
+	for i < len(text) {
+		j := strings.Index(text[i:], from)
+		if j < 0 {
+			sb.WriteString(text[i:])
+			break
+		}
+		j += i
+		before := j == 0 || strings.ContainsRune("() \n\t", rune(text[j-1]))
+		after := j+len(from) >= len(text) || strings.ContainsRune("() \n\t", rune(text[j+len(from)]))
+		sb.WriteString(text[i:j])
+		if before && after {
+			sb.WriteString(to)
+		} else {
+			sb.WriteString(from)
+		}
+		i = j + len(from)
+	}
+	return sb.String()
 }
